@@ -6,8 +6,8 @@ CONSTANTS
   Dests <- MCDests
   Txs <- MCTxs
   Ticks <- MCTicks
-  MaxTicks = 3
-  MaxObj = 4
+  MaxTicks = 2
+  MaxObj = 3
 CONSTRAINT Bound
 INVARIANTS SweptClean InOnlyPrimary Connected
 PROPERTIES LeakStable LiveKept
